@@ -1,1 +1,614 @@
-fn main() {}
+//! C01 driver: finite pipelines (depth 1..3) of safe calls that return arrays / record
+//! batches.  After every stage the result is dumped physically (`vcore::dump::to_layout`)
+//! and written as a `produced` / `batch` event; Trace_Outputs.tla (TLC) judges every one
+//! with the independent validator of ArrowLayout.tla.  No expectation is computed here.
+//!
+//! Stage 1 (sources): typed constructors / From / FromIterator (`vcore::mk`), builders'
+//! finish() / finish_cloned() incl. builder reuse, new_null_array, new_empty_array,
+//! make_array(to_data), ArrayData::new_null, the layout mutators (`vcore::mutate`),
+//! ArrayData::slice, CSV / JSON readers on generated text.
+//! Stages 2..3 (steps): filter, take, concat, interleave, zip, nullif, shift, slice,
+//! dictionary gc, union_extract, cast (arrow-cast, every castable target of the zoo),
+//! arithmetic / boolean / temporal kernels (arrow-arith), sort / sort_limit / take by sort
+//! indices / comparisons (arrow-ord), substring / concat_elements / length / like
+//! (arrow-string), row format round trip (arrow-row), IPC stream and file round trip
+//! (arrow-ipc), CSV and JSON write -> read (arrow-csv, arrow-json), record-batch
+//! slice / project / concat_batches / filter_record_batch / take_record_batch.
+use arrow_array::builder::*;
+use arrow_array::cast::AsArray;
+use arrow_array::types::*;
+use arrow_array::*;
+use arrow_data::ArrayData;
+use arrow_schema::{ArrowError, DataType, Field, Fields, Schema, SchemaRef, TimeUnit};
+use std::sync::Arc;
+use vcore::mk::{self, Cfg};
+use vcore::trace::Shards;
+use vcore::{dump, guarded, json, mutate, Args, Rng};
+
+struct Ctx {
+    t: Shards,
+    pipe: usize,
+    arrays: usize,
+    batches: usize,
+    skipped_big: usize,
+    errors: usize,
+    panics: usize,
+    max_rows: usize,
+}
+
+impl Ctx {
+    fn produced(&mut self, api: &str, stage: usize, a: &ArrayRef) {
+        let d = match guarded(|| a.to_data()) {
+            Ok(d) => d,
+            Err(_) => {
+                self.panics += 1;
+                return;
+            }
+        };
+        self.produced_data(api, stage, &d);
+    }
+    fn produced_data(&mut self, api: &str, stage: usize, d: &ArrayData) {
+        let v = dump::to_layout(d);
+        if dump::weight(&v) > 40_000 {
+            self.skipped_big += 1;
+            return;
+        }
+        let api: String = api.chars().take(40).collect();
+        self.arrays += 1;
+        self.t.emit(json!({"ev": "produced", "api": api, "pipe": format!("p{}", self.pipe), "stage": stage, "d": v}));
+    }
+    fn batch(&mut self, api: &str, stage: usize, b: &RecordBatch) {
+        let cols: Vec<vcore::Value> = b.columns().iter().map(|c| dump::to_layout(&c.to_data())).collect();
+        let w: usize = cols.iter().map(dump::weight).sum();
+        if w > 60_000 {
+            self.skipped_big += 1;
+            return;
+        }
+        let api: String = api.chars().take(40).collect();
+        self.batches += 1;
+        self.t.emit(json!({"ev": "batch", "api": api, "pipe": format!("p{}", self.pipe), "stage": stage,
+            "schema": dump::schema_desc(b.schema_ref()), "cols": cols, "nrows": b.num_rows()}));
+    }
+}
+
+type R = Result<ArrayRef, ArrowError>;
+
+/// run a kernel; Err / panic are not outputs (a panic is counted)
+fn call(cx: &mut Ctx, f: impl FnOnce() -> R) -> Option<ArrayRef> {
+    match guarded(f) {
+        Ok(Ok(a)) => Some(a),
+        Ok(Err(_)) => {
+            cx.errors += 1;
+            None
+        }
+        Err(_) => {
+            cx.panics += 1;
+            None
+        }
+    }
+}
+
+fn rand_mask(rng: &mut Rng, n: usize) -> BooleanArray {
+    let v: Vec<Option<bool>> = (0..n).map(|_| if rng.chance(10) { None } else { Some(rng.chance(50)) }).collect();
+    BooleanArray::from(v)
+}
+
+fn rand_indices(rng: &mut Rng, k: usize, n: usize) -> ArrayRef {
+    let v: Vec<Option<u32>> = (0..k).map(|_| if n == 0 || rng.chance(12) { None } else { Some(rng.below(n) as u32) }).collect();
+    if rng.chance(50) {
+        Arc::new(UInt32Array::from(v))
+    } else {
+        Arc::new(Int64Array::from(v.into_iter().map(|x| x.map(|y| y as i64)).collect::<Vec<_>>()))
+    }
+}
+
+// ---------------------------------------------------------------------------- sources
+
+fn builder_source(rng: &mut Rng, n: usize) -> Vec<(String, ArrayRef)> {
+    let mut out: Vec<(String, ArrayRef)> = vec![];
+    let nul = |rng: &mut Rng| rng.chance(25);
+    macro_rules! twice {
+        ($name:expr, $b:expr, $fill:expr) => {{
+            let mut b = $b;
+            for _ in 0..n { $fill(&mut b, rng); }
+            if let Ok(a) = guarded(|| Arc::new(b.finish_cloned()) as ArrayRef) { out.push((format!("{}::finish_cloned", $name), a)); }
+            if let Ok(a) = guarded(|| Arc::new(b.finish()) as ArrayRef) { out.push((format!("{}::finish", $name), a)); }
+            // the builder is reusable after finish() (a panic here is not an output: e.g. PrimitiveRunBuilder
+            // keeps prev_run_end_index across finish() and then emits a run end of 0)
+            for _ in 0..rng.below(4) { $fill(&mut b, rng); }
+            if let Ok(a) = guarded(|| Arc::new(b.finish()) as ArrayRef) { out.push((format!("{}::finish#2", $name), a)); }
+        }};
+    }
+    match rng.below(16) {
+        0 => twice!("Int32Builder", Int32Builder::new(), |b: &mut Int32Builder, r: &mut Rng| if nul(r) { b.append_null() } else { b.append_value(r.next() as i32) }),
+        1 => twice!("BooleanBuilder", BooleanBuilder::new(), |b: &mut BooleanBuilder, r: &mut Rng| if nul(r) { b.append_null() } else { b.append_value(r.chance(50)) }),
+        2 => twice!("StringBuilder", StringBuilder::new(), |b: &mut StringBuilder, r: &mut Rng| if nul(r) { b.append_null() } else { b.append_value(mk::rand_string(r, Cfg::wild(0))) }),
+        3 => twice!("LargeBinaryBuilder", LargeBinaryBuilder::new(), |b: &mut LargeBinaryBuilder, r: &mut Rng| if nul(r) { b.append_null() } else { b.append_value(mk::rand_bytes(r)) }),
+        4 => twice!("StringViewBuilder", StringViewBuilder::new().with_fixed_block_size(32), |b: &mut StringViewBuilder, r: &mut Rng| if nul(r) { b.append_null() } else { b.append_value(mk::rand_string(r, Cfg::wild(0))) }),
+        5 => twice!("BinaryViewBuilder", BinaryViewBuilder::new(), |b: &mut BinaryViewBuilder, r: &mut Rng| if nul(r) { b.append_null() } else { b.append_value(mk::rand_bytes(r)) }),
+        6 => twice!("FixedSizeBinaryBuilder", FixedSizeBinaryBuilder::new(3), |b: &mut FixedSizeBinaryBuilder, r: &mut Rng| if nul(r) { b.append_null() } else { b.append_value([r.next() as u8, 1, 2]).unwrap() }),
+        7 => twice!("ListBuilder", ListBuilder::new(Int32Builder::new()), |b: &mut ListBuilder<Int32Builder>, r: &mut Rng| {
+            if nul(r) { b.append_null() } else { for _ in 0..r.below(4) { if r.chance(20) { b.values().append_null() } else { b.values().append_value(r.below(9) as i32) } } b.append(true) }
+        }),
+        8 => twice!("LargeListBuilder", LargeListBuilder::new(StringBuilder::new()), |b: &mut LargeListBuilder<StringBuilder>, r: &mut Rng| {
+            for _ in 0..r.below(3) { b.values().append_value(mk::rand_string(r, Cfg::tame(0))) }
+            let v = !nul(r);
+            b.append(v)
+        }),
+        9 => twice!("FixedSizeListBuilder", FixedSizeListBuilder::new(Int8Builder::new(), 2), |b: &mut FixedSizeListBuilder<Int8Builder>, r: &mut Rng| {
+            b.values().append_value(r.next() as i8);
+            b.values().append_option(if r.chance(30) { None } else { Some(1) });
+            let v = !nul(r);
+            b.append(v)
+        }),
+        10 => twice!("StringDictionaryBuilder", StringDictionaryBuilder::<Int8Type>::new(), |b: &mut StringDictionaryBuilder<Int8Type>, r: &mut Rng| if nul(r) { b.append_null() } else { b.append_value(["a", "b", "é", ""][r.below(4)]) }),
+        11 => twice!("PrimitiveDictionaryBuilder", PrimitiveDictionaryBuilder::<UInt16Type, Int64Type>::new(), |b: &mut PrimitiveDictionaryBuilder<UInt16Type, Int64Type>, r: &mut Rng| if nul(r) { b.append_null() } else { b.append_value(r.below(5) as i64) }),
+        12 => twice!("PrimitiveRunBuilder", PrimitiveRunBuilder::<Int16Type, Int64Type>::new(), |b: &mut PrimitiveRunBuilder<Int16Type, Int64Type>, r: &mut Rng| if nul(r) { b.append_null() } else { b.append_value(r.below(3) as i64) }),
+        13 => twice!("StringRunBuilder", StringRunBuilder::<Int32Type>::new(), |b: &mut StringRunBuilder<Int32Type>, r: &mut Rng| if nul(r) { b.append_null() } else { b.append_value(["x", "y"][r.below(2)]) }),
+        14 => twice!("MapBuilder", MapBuilder::new(None, StringBuilder::new(), Int32Builder::new()), |b: &mut MapBuilder<StringBuilder, Int32Builder>, r: &mut Rng| {
+            for _ in 0..r.below(3) { b.keys().append_value(mk::rand_string(r, Cfg::tame(0))); b.values().append_option(if r.chance(30) { None } else { Some(7) }); }
+            let v = !nul(r);
+            b.append(v).unwrap()
+        }),
+        _ => {
+            // struct and union builders
+            let fields = Fields::from(vec![Field::new("a", DataType::Int32, true), Field::new("b", DataType::Utf8, true)]);
+            let mut b = StructBuilder::from_fields(fields, n);
+            for _ in 0..n {
+                let v = !rng.chance(25);
+                b.field_builder::<Int32Builder>(0).unwrap().append_option(if rng.chance(30) { None } else { Some(3) });
+                b.field_builder::<StringBuilder>(1).unwrap().append_value(mk::rand_string(rng, Cfg::tame(0)));
+                b.append(v);
+            }
+            out.push(("StructBuilder::finish_cloned".into(), Arc::new(b.finish_cloned())));
+            out.push(("StructBuilder::finish".into(), Arc::new(b.finish())));
+            for dense in [true, false] {
+                let mut u = if dense { UnionBuilder::new_dense() } else { UnionBuilder::new_sparse() };
+                for _ in 0..n {
+                    match rng.below(4) {
+                        0 => u.append::<Int32Type>("i", rng.next() as i32).unwrap(),
+                        1 => u.append::<Float64Type>("f", 1.5).unwrap(),
+                        2 => u.append_null::<Int32Type>("i").unwrap(),
+                        _ => u.append::<Int64Type>("l", -1).unwrap(),
+                    }
+                }
+                if let Ok(a) = u.build() {
+                    out.push((format!("UnionBuilder({})::build", if dense { "dense" } else { "sparse" }), Arc::new(a)));
+                }
+            }
+            out.push(("NullBuilder::finish".into(), { let mut nb = NullBuilder::new(); nb.append_nulls(n); Arc::new(nb.finish()) }));
+        }
+    }
+    out
+}
+
+fn from_iter_source(rng: &mut Rng, n: usize) -> Vec<(String, ArrayRef)> {
+    let opt_i: Vec<Option<i64>> = (0..n).map(|_| if rng.chance(20) { None } else { Some(rng.next() as i64) }).collect();
+    let opt_s: Vec<Option<String>> = (0..n).map(|_| if rng.chance(20) { None } else { Some(mk::rand_string(rng, Cfg::wild(0))) }).collect();
+    vec![
+        ("Int64Array::from(Vec<Option>)".into(), Arc::new(Int64Array::from(opt_i.clone())) as ArrayRef),
+        ("Int64Array::from_iter".into(), Arc::new(opt_i.iter().cloned().collect::<Int64Array>())),
+        ("Float32Array::from_iter_values".into(), Arc::new(Float32Array::from_iter_values((0..n).map(|i| i as f32)))),
+        ("StringArray::from_iter".into(), Arc::new(opt_s.iter().cloned().collect::<StringArray>())),
+        ("LargeStringArray::from(Vec<Option<&str>>)".into(), Arc::new(LargeStringArray::from(opt_s.iter().map(|x| x.as_deref()).collect::<Vec<_>>()))),
+        ("StringViewArray::from_iter".into(), Arc::new(opt_s.iter().cloned().collect::<StringViewArray>())),
+        ("BinaryArray::from_iter".into(), Arc::new(opt_s.iter().map(|x| x.as_ref().map(|s| s.as_bytes().to_vec())).collect::<BinaryArray>())),
+        ("BooleanArray::from(Vec<bool>)".into(), Arc::new(BooleanArray::from((0..n).map(|i| i % 3 == 0).collect::<Vec<_>>()))),
+        ("ListArray::from_iter_primitive".into(), Arc::new(ListArray::from_iter_primitive::<Int32Type, _, _>((0..n).map(|i| if i % 4 == 1 { None } else { Some(vec![Some(i as i32), None]) })))),
+        ("FixedSizeListArray::from_iter_primitive".into(), Arc::new(FixedSizeListArray::from_iter_primitive::<Int32Type, _, _>((0..n).map(|i| if i % 3 == 1 { None } else { Some(vec![Some(1), None]) }), 2))),
+        ("DictionaryArray::from_iter".into(), Arc::new(opt_s.iter().map(|x| x.as_deref()).collect::<DictionaryArray<Int32Type>>())),
+        ("RunArray::from_iter".into(), Arc::new(opt_s.iter().map(|x| x.as_deref().map(|s| if s.len() > 2 { "long" } else { "short" })).collect::<RunArray<Int32Type>>())),
+    ]
+}
+
+fn sources(cx: &mut Ctx, rng: &mut Rng, dt: &DataType) -> Vec<(String, ArrayRef)> {
+    let n = mk::rand_len(rng, cx.max_rows);
+    let np = *rng.pick(&[0usize, 0, 15, 40, 95]);
+    let mut v: Vec<(String, ArrayRef)> = vec![];
+    match rng.below(10) {
+        0 => v.extend(builder_source(rng, n.min(24))),
+        1 => v.extend(from_iter_source(rng, n.min(24))),
+        2 => {
+            v.push(("new_null_array".into(), new_null_array(dt, n)));
+            v.push(("new_empty_array".into(), new_empty_array(dt)));
+            v.push(("make_array(ArrayData::new_null)".into(), make_array(ArrayData::new_null(dt, n))));
+        }
+        _ => {
+            let cfg = if rng.chance(50) { Cfg::wild(np) } else { Cfg::tame(np) };
+            let a = mk::array(rng, dt, n, cfg);
+            v.push(("mk".into(), a.clone()));
+            for (name, r) in mutate::realisations(rng, &a, 4).into_iter().skip(1) {
+                v.push((format!("mutate:{name}"), r));
+            }
+            if let Ok(m) = guarded(|| make_array(a.to_data())) {
+                v.push(("make_array(to_data)".into(), m));
+            }
+        }
+    }
+    v
+}
+
+// ---------------------------------------------------------------------------- steps
+
+fn cast_targets() -> Vec<DataType> {
+    let mut v = mk::all_types();
+    v.push(DataType::Dictionary(Box::new(DataType::UInt8), Box::new(DataType::Utf8View)));
+    v.push(DataType::RunEndEncoded(Arc::new(Field::new("run_ends", DataType::Int32, false)), Arc::new(Field::new("values", DataType::Utf8, true))));
+    v.push(DataType::Timestamp(TimeUnit::Nanosecond, None));
+    v
+}
+
+fn ipc_roundtrip(b: &RecordBatch, file: bool) -> Result<Vec<RecordBatch>, ArrowError> {
+    let mut buf: Vec<u8> = vec![];
+    if file {
+        let mut w = arrow_ipc::writer::FileWriter::try_new(&mut buf, b.schema_ref())?;
+        w.write(b)?;
+        w.finish()?;
+        drop(w);
+        let r = arrow_ipc::reader::FileReader::try_new(std::io::Cursor::new(buf), None)?;
+        r.collect()
+    } else {
+        let mut w = arrow_ipc::writer::StreamWriter::try_new(&mut buf, b.schema_ref())?;
+        w.write(b)?;
+        w.write(&b.slice(0, b.num_rows() / 2))?;
+        w.finish()?;
+        drop(w);
+        let r = arrow_ipc::reader::StreamReader::try_new(std::io::Cursor::new(buf), None)?;
+        r.collect()
+    }
+}
+
+fn csv_roundtrip(b: &RecordBatch) -> Result<Vec<RecordBatch>, ArrowError> {
+    let mut buf: Vec<u8> = vec![];
+    {
+        let mut w = arrow_csv::WriterBuilder::new().with_header(true).build(&mut buf);
+        w.write(b)?;
+    }
+    let r = arrow_csv::ReaderBuilder::new(b.schema()).with_header(true).with_batch_size(7).build(std::io::Cursor::new(buf))?;
+    r.collect()
+}
+
+fn json_roundtrip(b: &RecordBatch) -> Result<Vec<RecordBatch>, ArrowError> {
+    let mut buf: Vec<u8> = vec![];
+    {
+        let mut w = arrow_json::LineDelimitedWriter::new(&mut buf);
+        w.write(b)?;
+        w.finish()?;
+    }
+    let r = arrow_json::ReaderBuilder::new(b.schema()).with_batch_size(5).build(std::io::Cursor::new(buf))?;
+    r.collect()
+}
+
+fn single(a: &ArrayRef) -> Option<RecordBatch> {
+    let schema = Arc::new(Schema::new(vec![Field::new("c", a.data_type().clone(), true)]));
+    guarded(|| RecordBatch::try_new(schema, vec![a.clone()])).ok()?.ok()
+}
+
+/// one random transformation of `a`; every array it returns is an output
+fn step(cx: &mut Ctx, rng: &mut Rng, a: &ArrayRef, stage: usize) -> Vec<(String, ArrayRef)> {
+    let n = a.len();
+    let dt = a.data_type().clone();
+    let mut out: Vec<(String, ArrayRef)> = vec![];
+    let mut push = |name: String, r: Option<ArrayRef>| {
+        if let Some(r) = r {
+            out.push((name, r));
+        }
+    };
+    match rng.below(30) {
+        0 | 1 => {
+            let m = rand_mask(rng, n);
+            push("filter".into(), call(cx, || arrow_select::filter::filter(a.as_ref(), &m)));
+        }
+        2 | 3 => {
+            let k = rng.below(n + 3);
+            let idx = rand_indices(rng, k, n);
+            push("take".into(), call(cx, || arrow_select::take::take(a.as_ref(), idx.as_ref(), None)));
+        }
+        4 => {
+            let k = rng.below(6);
+            let b = mk::array(rng, &dt, k, Cfg::wild(30));
+            let compatible = !matches!(dt, DataType::Dictionary(_, _) | DataType::RunEndEncoded(_, _) | DataType::Union(_, _));
+            let other: ArrayRef = if compatible { b } else { a.slice(0, n / 2) };
+            push("concat".into(), call(cx, || arrow_select::concat::concat(&[a.as_ref(), other.as_ref(), a.as_ref()])));
+        }
+        5 => {
+            let b = a.slice(n / 3, n - n / 3);
+            let pairs: Vec<(usize, usize)> = (0..rng.below(n + 2)).filter_map(|_| {
+                let w = rng.below(2);
+                let l = if w == 0 { n } else { b.len() };
+                if l == 0 { None } else { Some((w, rng.below(l))) }
+            }).collect();
+            push("interleave".into(), call(cx, || arrow_select::interleave::interleave(&[a.as_ref(), b.as_ref()], &pairs)));
+        }
+        6 => {
+            let m = rand_mask(rng, n);
+            let b = if rng.chance(50) { a.clone() } else { mk::array(rng, &dt, n, Cfg::wild(50)) };
+            push("zip".into(), call(cx, || arrow_select::zip::zip(&m, a, &b)));
+        }
+        7 => {
+            let m = rand_mask(rng, n);
+            push("nullif".into(), call(cx, || arrow_select::nullif::nullif(a.as_ref(), &m)));
+        }
+        8 => {
+            let k = rng.range(-(n as i64) - 1, n as i64 + 1);
+            push("shift".into(), call(cx, || arrow_select::window::shift(a.as_ref(), k)));
+        }
+        9 | 10 => {
+            if n > 0 {
+                let o = rng.below(n);
+                let l = rng.below(n - o + 1);
+                push("Array::slice".into(), guarded(|| a.slice(o, l)).ok());
+                let d = a.to_data();
+                if let Ok(s) = guarded(|| d.slice(o, l)) {
+                    cx.produced_data("ArrayData::slice", stage, &s);
+                    // keep going only where the typed layer can read it back
+                    push("make_array(ArrayData::slice)".into(), guarded(|| make_array(s)).ok());
+                }
+            }
+        }
+        11..=15 => {
+            let ts = cast_targets();
+            let mut tried = 0;
+            while tried < 6 {
+                let t = rng.pick(&ts).clone();
+                tried += 1;
+                if t != dt && arrow_cast::can_cast_types(&dt, &t) {
+                    let safe = rng.chance(70);
+                    let opts = arrow_cast::CastOptions { safe, ..Default::default() };
+                    let name = format!("cast:{}", vcore::tok::family(&t));
+                    push(name, call(cx, || arrow_cast::cast_with_options(a.as_ref(), &t, &opts)));
+                    break;
+                }
+            }
+        }
+        16 | 17 => {
+            if dt.is_numeric() || dt.is_temporal() {
+                push("add_wrapping".into(), call(cx, || arrow_arith::numeric::add_wrapping(a, a)));
+                push("neg_wrapping".into(), call(cx, || arrow_arith::numeric::neg_wrapping(a.as_ref())));
+                push("mul".into(), call(cx, || arrow_arith::numeric::mul(a, a)));
+                push("div".into(), call(cx, || arrow_arith::numeric::div(a, a)));
+                let b = a.slice(0, n);
+                push("sub".into(), call(cx, || arrow_arith::numeric::sub(a, &b)));
+                push("date_part".into(), call(cx, || arrow_arith::temporal::date_part(a.as_ref(), arrow_arith::temporal::DatePart::Year)));
+            } else if let Some(b) = a.as_boolean_opt() {
+                let m = rand_mask(rng, n);
+                push("and_kleene".into(), call(cx, || arrow_arith::boolean::and_kleene(b, &m).map(|x| Arc::new(x) as ArrayRef)));
+                push("not".into(), call(cx, || arrow_arith::boolean::not(b).map(|x| Arc::new(x) as ArrayRef)));
+                push("or".into(), call(cx, || arrow_arith::boolean::or(b, &m).map(|x| Arc::new(x) as ArrayRef)));
+            }
+            push("is_null".into(), call(cx, || arrow_arith::boolean::is_null(a.as_ref()).map(|x| Arc::new(x) as ArrayRef)));
+        }
+        18 | 19 => {
+            let opts = arrow_ord::sort::SortOptions { descending: rng.chance(50), nulls_first: rng.chance(50) };
+            push("sort".into(), call(cx, || arrow_ord::sort::sort(a.as_ref(), Some(opts))));
+            let lim = rng.below(n + 2);
+            push("sort_limit".into(), call(cx, || arrow_ord::sort::sort_limit(a.as_ref(), Some(opts), Some(lim))));
+            if let Some(idx) = call(cx, || arrow_ord::sort::sort_to_indices(a.as_ref(), Some(opts), None).map(|x| Arc::new(x) as ArrayRef)) {
+                push("take(sort_to_indices)".into(), call(cx, || arrow_select::take::take(a.as_ref(), idx.as_ref(), None)));
+                push("sort_to_indices".into(), Some(idx));
+            }
+            push("cmp::eq".into(), call(cx, || arrow_ord::cmp::eq(a, a).map(|x| Arc::new(x) as ArrayRef)));
+            push("cmp::lt".into(), call(cx, || arrow_ord::cmp::lt(a, a).map(|x| Arc::new(x) as ArrayRef)));
+        }
+        20 | 21 => {
+            let start = rng.range(-5, 5);
+            let len = if rng.chance(50) { None } else { Some(rng.below(6) as u64) };
+            push("substring".into(), call(cx, || arrow_string::substring::substring(a.as_ref(), start, len)));
+            push("concat_elements_dyn".into(), call(cx, || arrow_string::concat_elements::concat_elements_dyn(a.as_ref(), a.as_ref())));
+            push("length".into(), call(cx, || arrow_string::length::length(a.as_ref())));
+            push("bit_length".into(), call(cx, || arrow_string::length::bit_length(a.as_ref())));
+            if matches!(dt, DataType::Utf8 | DataType::LargeUtf8 | DataType::Utf8View) {
+                let pat = Scalar::new(StringArray::from(vec!["%a_"]));
+                push("like".into(), call(cx, || arrow_string::like::like(a, &pat).map(|x| Arc::new(x) as ArrayRef)));
+            }
+            if let Some(s) = a.as_string_opt::<i32>() {
+                push("substring_by_char".into(), call(cx, || arrow_string::substring::substring_by_char(s, start, len).map(|x| Arc::new(x) as ArrayRef)));
+            }
+        }
+        22 => {
+            let r = guarded(|| -> Result<Vec<ArrayRef>, ArrowError> {
+                let conv = arrow_row::RowConverter::new(vec![arrow_row::SortField::new(dt.clone())])?;
+                let rows = conv.convert_columns(&[a.clone()])?;
+                conv.convert_rows(&rows)
+            });
+            match r {
+                Ok(Ok(cols)) => {
+                    for c in cols {
+                        push("row:convert_rows".into(), Some(c));
+                    }
+                }
+                Ok(Err(_)) => cx.errors += 1,
+                Err(_) => cx.panics += 1,
+            }
+        }
+        23 | 24 => {
+            if let Some(b) = single(a) {
+                let file = rng.chance(50);
+                match guarded(|| ipc_roundtrip(&b, file)) {
+                    Ok(Ok(bs)) => {
+                        for rb in bs {
+                            cx.batch(if file { "ipc:FileReader" } else { "ipc:StreamReader" }, stage, &rb);
+                            push("ipc:column".into(), Some(rb.column(0).clone()));
+                        }
+                    }
+                    Ok(Err(_)) => cx.errors += 1,
+                    Err(_) => cx.panics += 1,
+                }
+            }
+        }
+        25 => {
+            if let Some(b) = single(a) {
+                match guarded(|| csv_roundtrip(&b)) {
+                    Ok(Ok(bs)) => {
+                        for rb in bs {
+                            cx.batch("csv:Reader", stage, &rb);
+                            push("csv:column".into(), Some(rb.column(0).clone()));
+                        }
+                    }
+                    Ok(Err(_)) => cx.errors += 1,
+                    Err(_) => cx.panics += 1,
+                }
+            }
+        }
+        26 => {
+            if let Some(b) = single(a) {
+                match guarded(|| json_roundtrip(&b)) {
+                    Ok(Ok(bs)) => {
+                        for rb in bs {
+                            cx.batch("json:Reader", stage, &rb);
+                            push("json:column".into(), Some(rb.column(0).clone()));
+                        }
+                    }
+                    Ok(Err(_)) => cx.errors += 1,
+                    Err(_) => cx.panics += 1,
+                }
+            }
+        }
+        27 => {
+            if let DataType::Dictionary(_, _) = dt {
+                push("garbage_collect_any_dictionary".into(), call(cx, || arrow_select::dictionary::garbage_collect_any_dictionary(a.as_any_dictionary())));
+            }
+            if let Some(u) = a.as_any().downcast_ref::<UnionArray>() {
+                let DataType::Union(fs, _) = &dt else { unreachable!() };
+                for (_, f) in fs.iter() {
+                    push("union_extract".into(), call(cx, || arrow_select::union_extract::union_extract(u, f.name())));
+                }
+            }
+            if let Some(v) = a.as_string_view_opt() {
+                push("StringViewArray::gc".into(), guarded(|| Arc::new(v.gc()) as ArrayRef).ok());
+            }
+            if let Some(v) = a.as_binary_view_opt() {
+                push("BinaryViewArray::gc".into(), guarded(|| Arc::new(v.gc()) as ArrayRef).ok());
+            }
+            push("logical_nulls->BooleanArray".into(), a.logical_nulls().map(|x| Arc::new(BooleanArray::new(x.into_inner(), None)) as ArrayRef));
+        }
+        _ => {
+            // record-batch level
+            if let Some(b) = single(a) {
+                let other = mk::array(rng, &DataType::Int32, n, Cfg::wild(20));
+                let schema: SchemaRef = Arc::new(Schema::new(vec![Field::new("c", dt.clone(), true), Field::new("i", DataType::Int32, true)]));
+                if let Ok(Ok(b2)) = guarded(|| RecordBatch::try_new(schema.clone(), vec![a.clone(), other])) {
+                    cx.batch("RecordBatch::try_new", stage, &b2);
+                    let o = rng.below(n + 1);
+                    let l = rng.below(n - o + 1);
+                    if let Ok(s) = guarded(|| b2.slice(o, l)) {
+                        cx.batch("RecordBatch::slice", stage, &s);
+                    }
+                    if let Ok(Ok(p)) = guarded(|| b2.project(&[1])) {
+                        cx.batch("RecordBatch::project", stage, &p);
+                    }
+                    if let Ok(Ok(c)) = guarded(|| arrow_select::concat::concat_batches(&schema, [&b2, &b2.slice(0, n / 2)])) {
+                        cx.batch("concat_batches", stage, &c);
+                    }
+                    let m = rand_mask(rng, n);
+                    if let Ok(Ok(f)) = guarded(|| arrow_select::filter::filter_record_batch(&b2, &m)) {
+                        cx.batch("filter_record_batch", stage, &f);
+                        push("filter_record_batch:column".into(), Some(f.column(0).clone()));
+                    }
+                    let k = rng.below(n + 2);
+                    let idx = rand_indices(rng, k, n);
+                    if let Ok(Ok(t)) = guarded(|| arrow_select::take::take_record_batch(&b2, idx.as_ref())) {
+                        cx.batch("take_record_batch", stage, &t);
+                    }
+                }
+                let _ = b;
+            }
+        }
+    }
+    out
+}
+
+/// CSV / JSON readers on generated text (not produced by the writers)
+fn text_readers(cx: &mut Ctx, rng: &mut Rng) {
+    let schema = Arc::new(Schema::new(vec![
+        Field::new("i", DataType::Int64, true),
+        Field::new("s", DataType::Utf8, true),
+        Field::new("f", DataType::Float64, true),
+        Field::new("b", DataType::Boolean, true),
+        Field::new("d", DataType::Date32, true),
+        Field::new("v", DataType::Utf8View, true),
+    ]));
+    let n = rng.below(12);
+    let mut csv = String::from("i,s,f,b,d,v\n");
+    let mut js = String::new();
+    for _ in 0..n {
+        let i = if rng.chance(20) { String::new() } else { format!("{}", rng.range(-1000, 1000)) };
+        let s = if rng.chance(20) { String::new() } else { ["x", "é", "a b", "日本", "long string beyond twelve"][rng.below(5)].to_string() };
+        let f = if rng.chance(20) { String::new() } else { format!("{}.5", rng.below(100)) };
+        let b = ["true", "false", ""][rng.below(3)];
+        let d = ["2020-01-02", "1969-12-31", ""][rng.below(3)];
+        csv.push_str(&format!("{i},\"{s}\",{f},{b},{d},{s}\n"));
+        let q = |x: &str, quote: bool| if x.is_empty() { "null".to_string() } else if quote { format!("\"{x}\"") } else { x.to_string() };
+        js.push_str(&format!("{{\"i\":{},\"s\":{},\"f\":{},\"b\":{},\"d\":{},\"v\":{}}}\n", q(&i, false), q(&s, true), q(&f, false), q(b, false), q(d, true), q(&s, true)));
+    }
+    cx.pipe += 1;
+    if let Ok(Ok(bs)) = guarded(|| -> Result<Vec<RecordBatch>, ArrowError> {
+        arrow_csv::ReaderBuilder::new(schema.clone()).with_header(true).with_batch_size(5).build(std::io::Cursor::new(csv.into_bytes()))?.collect()
+    }) {
+        for b in bs {
+            cx.batch("csv:Reader(text)", 1, &b);
+            for c in b.columns() {
+                cx.produced("csv:Reader(text):column", 1, c);
+            }
+        }
+    }
+    if let Ok(Ok(bs)) = guarded(|| -> Result<Vec<RecordBatch>, ArrowError> {
+        arrow_json::ReaderBuilder::new(schema.clone()).with_batch_size(4).build(std::io::Cursor::new(js.into_bytes()))?.collect()
+    }) {
+        for b in bs {
+            cx.batch("json:Reader(text)", 1, &b);
+            for c in b.columns() {
+                cx.produced("json:Reader(text):column", 1, c);
+            }
+        }
+    }
+}
+
+fn main() {
+    let args = Args::parse();
+    vcore::quiet_panics();
+    let mut rng = Rng::new(args.seed);
+    let mut cx = Ctx { t: Shards::create(&args.out, "outputs", 14), pipe: 0, arrays: 0, batches: 0, skipped_big: 0, errors: 0, panics: 0, max_rows: 33 };
+    let types = mk::all_types();
+    let rounds = args.scale(4, 60);
+    for round in 0..rounds {
+        cx.max_rows = if round % 4 == 3 { 64 } else { 24 };
+        for dt in &types {
+            let srcs = sources(&mut cx, &mut rng, dt);
+            for (sname, a) in srcs {
+                cx.pipe += 1;
+                cx.produced(&sname, 1, &a);
+                // depth 2 and 3
+                let mut frontier = vec![a];
+                for stage in 2..=3 {
+                    let mut next = vec![];
+                    for x in &frontier {
+                        let k = if stage == 2 { 2 } else { 1 };
+                        for _ in 0..k {
+                            for (name, r) in step(&mut cx, &mut rng, x, stage) {
+                                if r.len() <= 64 {
+                                    cx.produced(&name, stage, &r);
+                                    next.push(r);
+                                }
+                            }
+                        }
+                    }
+                    // bound the fan-out
+                    while next.len() > 3 {
+                        let i = rng.below(next.len());
+                        next.swap_remove(i);
+                    }
+                    frontier = next;
+                }
+                cx.t.next_episode();
+            }
+        }
+        for _ in 0..4 {
+            text_readers(&mut cx, &mut rng);
+            cx.t.next_episode();
+        }
+    }
+    let n = cx.t.finish();
+    println!("DRIVER c01 events={n} arrays={} batches={} pipelines={} kernel_errors={} kernel_panics={} skipped_big={}",
+        cx.arrays, cx.batches, cx.pipe, cx.errors, cx.panics, cx.skipped_big);
+}
